@@ -13,6 +13,7 @@ package kv
 
 import (
 	"context"
+	"encoding/base64"
 	"encoding/gob"
 	"encoding/json"
 	"errors"
@@ -297,7 +298,18 @@ func (e *persistEncryptor) Load(ctx context.Context, path string) ([]byte, error
 	if err != nil {
 		return nil, err
 	}
-	return e.encryptor.Decrypt(path, value)
+	plain, err := e.encryptor.Decrypt(path, value)
+	if err != nil {
+		return nil, err
+	}
+	// A node is named after the hash of its content. The MAC only says that
+	// the object was sealed with this key, not that it belongs here: another
+	// node's object copied over this one would be accepted without this.
+	sum := blake2b.Sum256(plain)
+	if base64.RawURLEncoding.EncodeToString(sum[:]) != path {
+		return nil, fmt.Errorf("node %s: content does not match its name", path)
+	}
+	return plain, nil
 }
 func (e *persistEncryptor) NodeURLPrefix() string {
 	return e.Persist.NodeURLPrefix()
